@@ -34,6 +34,10 @@ _OP2_TABLE = "        table = {4: (4, \"i4\", \"%di\", \"i\", \"%df\", \"f4\", \
 _REC_REALS = "        elif form == \"double\":\n            frm = self._endian + \"f8\"\n            frmu = self._endian + \"%dd\"\n            bytes_per = 8\n        elif form == \"single\":\n            frm = self._endian + \"f4\"\n            frmu = self._endian + \"%df\"\n            bytes_per = 4\n"
 _REC_REALS_HELPER = "        elif form in (\"double\", \"single\"):\n            def real_format(form):\n                if form == \"double\":\n                    return self._endian + \"f8\", self._endian + \"%dd\", 8\n                if form == \"single\":\n                    return self._endian + \"f4\", self._endian + \"%df\", @NB@\n                raise ValueError(form)\n            frm, frmu, bytes_per = real_format(form)\n"
 
+_REC_REALS_TABLE = "        elif form in (\"double\", \"single\"):\n            code, bytes_per = {\"double\": (\"d\", 8), \"single\": (\"f\", @NB@)}[form]\n            frm = f\"{self._endian}f{bytes_per}\"\n            frmu = f\"{self._endian}%d{code}\"\n"
+_MAT_BYTES = "            frm = self._rfrm\n            frmu = self._rfrmu\n            bytes_per = self._fbytes\n        else:\n            frm = self._endian + \"f8\"\n            frmu = self._endian + \"%dd\"\n            bytes_per = 8\n\n        matrix = np.zeros"
+_MAT_CALCSIZE = "            frm = self._rfrm\n            frmu = self._rfrmu\n        else:\n            frm = self._endian + \"f8\"\n            frmu = self._endian + \"%dd\"\n        bytes_per = struct.calcsize(frmu % @N@)\n\n        matrix = np.zeros"
+
 RECIPES = [
     # ------------------------------------------------------------------ break: decode sizes (R2)
     ("C11", "break", ["C11-R2"], OP2, "        hbytes = 3 * self._ibytes\n", "        hbytes = 12\n", "DYNAMICS header read with a fixed 12 bytes (wrong with 64-bit keys)"),
@@ -291,4 +295,9 @@ RECIPES += [
     # ------------------------------------------------------------------ pass 4: formats returned as a tuple by a helper that raises on anything else
     ("C11", "neutral", [], OP2, _REC_REALS, _REC_REALS_HELPER.replace("@NB@", "4"), "rdop2record: (numpy format, struct format, bytes) of the real forms from a local helper that raises on other forms"),
     ("C11", "break", ["C11-R1"], OP2, _REC_REALS, _REC_REALS_HELPER.replace("@NB@", "8"), "rdop2record (helper returning a tuple): 8 bytes per single-precision value"),
+    # ------------------------------------------------------------------ pass 4: formats built from a literal table keyed by the form
+    ("C11", "neutral", [], OP2, _REC_REALS, _REC_REALS_TABLE.replace("@NB@", "4"), "rdop2record: (struct code, bytes) of the real forms from a literal table keyed by `form`"),
+    ("C11", "break", ["C11-R1"], OP2, _REC_REALS, _REC_REALS_TABLE.replace("@NB@", "8"), "rdop2record (table keyed by form): 'single' listed with 8 bytes (numpy f8 against struct f)"),
+    ("C11", "neutral", [], OP2, _MAT_BYTES, _MAT_CALCSIZE.replace("@N@", "1"), "rdop2matrix: bytes per value = calcsize of the selected struct format"),
+    ("C11", "break", ["C11-R1"], OP2, _MAT_BYTES, _MAT_CALCSIZE.replace("@N@", "3"), "rdop2matrix (calcsize): bytes per value = size of three values"),
 ]
